@@ -135,3 +135,85 @@ benign("c10-debug-prints", ["C10"], [(M, '''        self.sock = nsock
 ''', '''        self.sock = nsock
         self.__dprint("TLS established")
 ''')])
+
+# --------------------------------------------------------------------------- C05
+seeded("m1-peek-recv", ["C05", "C15"], "M1", [(M, '''    def logout(self):''', '''    def pending(self):
+        return self.sock.recv(1)
+
+    def logout(self):''')])
+seeded("m2-buffer-cleared-in-sender", ["C05", "C15"], "M2", [(M, '''        tosend = name.encode("utf-8")
+''', '''        tosend = name.encode("utf-8")
+        self.__read_buffer = b""
+''')], "drops pipelined bytes; invisible with one reply per recv")
+seeded("m2-buffer-read-in-operation", ["C05", "C15"], "M2", [(M, '''        code, data = self.__send_command("DELETESCRIPT", [name.encode("utf-8")])''', '''        code, data = self.__send_command("DELETESCRIPT", [name.encode("utf-8")])
+        if len(self.__read_buffer):
+            self.__read_buffer = self.__read_buffer[2:]''')])
+seeded("m3-single-recv", ["C05"], "M3", [(M, '''        while size:
+            try:
+                data = self.sock.recv(size)
+            except (socket.timeout, ssl.SSLError):
+                raise Error("Failed to read %d bytes from the server" % size)
+            if not len(data):
+                raise Error("Connection closed by server")
+            buf += data
+            size -= len(data)
+''', '''        if size:
+            try:
+                data = self.sock.recv(size)
+            except (socket.timeout, ssl.SSLError):
+                raise Error("Failed to read %d bytes from the server" % size)
+            buf += data
+''')], "the pre-fix shape; suite passes")
+seeded("m3-request-read-size", ["C05"], "M3", [(M, '''                data = self.sock.recv(size)
+            except (socket.timeout, ssl.SSLError):
+                raise Error("Failed to read %d bytes''', '''                data = self.sock.recv(self.read_size)
+            except (socket.timeout, ssl.SSLError):
+                raise Error("Failed to read %d bytes''')], "over-reads into the next reply")
+seeded("m3-buffer-skipped", ["C05"], "M3", [(M, '''        buf = b""
+        if len(self.__read_buffer):
+            limit = size if size <= len(self.__read_buffer) else len(self.__read_buffer)
+            buf = self.__read_buffer[:limit]
+            self.__read_buffer = self.__read_buffer[limit:]
+            size -= limit
+''', '''        buf = b""
+''')])
+seeded("m4-break-after-first-recv", ["C05"], "M4", [(M, '''                self.__read_buffer += nval
+            except (socket.timeout, ssl.SSLError):''', '''                self.__read_buffer += nval
+                if len(nval) < self.read_size:
+                    ret = self.__read_buffer
+                    self.__read_buffer = b""
+                    break
+            except (socket.timeout, ssl.SSLError):''')], "returns a partial line when the segment is short")
+seeded("m4-rest-offset", ["C05"], "M4", [(M, "self.__read_buffer = self.__read_buffer[pos + len(CRLF) :]", "self.__read_buffer = self.__read_buffer[pos + 1 :]")])
+seeded("m4-timeout-swallowed", ["C05"], "M4", [(M, '''            except (socket.timeout, ssl.SSLError):
+                raise Error("Failed to read data from the server")''', '''            except (socket.timeout, ssl.SSLError):
+                break''')])
+seeded("m5-size-plus-one", ["C05"], "M5", [(M, "resp += self.__read_block(inst.value)", "resp += self.__read_block(inst.value + 1)")])
+seeded("m5-literal-size-from-len", ["C05"], "M5", [(M, "raise Literal(int(m.group(1)))", "raise Literal(len(m.group(1)))")])
+seeded("m5-size-pattern-loose", ["C05"], "M5", [(M, r'''re.compile(rb"\{(\d+)\+?\}")''', r'''re.compile(rb"\{(\w*)\+?\}")''')])
+
+benign("c05-while-len", ["C05"], [(M, '''        while size:
+            try:
+                data = self.sock.recv(size)
+            except (socket.timeout, ssl.SSLError):
+                raise Error("Failed to read %d bytes from the server" % size)
+            if not len(data):
+                raise Error("Connection closed by server")
+            buf += data
+            size -= len(data)
+''', '''        total = len(buf) + size
+        while len(buf) < total:
+            try:
+                data = self.sock.recv(total - len(buf))
+            except (socket.timeout, ssl.SSLError):
+                raise Error("Failed to read %d bytes from the server" % size)
+            if not data:
+                raise Error("Connection closed by server")
+            buf += data
+''')], "other accepted loop idiom")
+benign("c05-crlf-const-2", ["C05"], [(M, "self.__read_buffer = self.__read_buffer[pos + len(CRLF) :]", "self.__read_buffer = self.__read_buffer[pos + 2 :]")])
+benign("c05-buffer-reset-on-connect", ["C05", "C15"], [(M, '''        self.authenticated = False
+''', '''        self.authenticated = False
+        self.__read_buffer = b""
+''')])
+benign("c05-size-pattern-digits-class", ["C05"], [(M, r'''re.compile(rb"\{(\d+)\+?\}")''', r'''re.compile(rb"\{([0-9]+)\+?\}")''')])
